@@ -1,20 +1,6 @@
 SPECIFICATION TraceSpec
 CONSTANTS
-  Cfgs <- PCfgs
-  Flag <- PFlag
-  Inputs <- PInputs
-  WInputs <- PWInputs
-  Fresh <- PFresh
-  FreshMM <- PFreshMM
-  Alt <- PAlt
-  Nested <- PNested
-  Defs <- PDefs
-  Unres <- PUnres
-  NImp <- PNImp
-  Slots <- PSlots
-  MaxOps <- PMaxOps
-  Dev <- PDev
-  Break <- PBreak
+  Pool <- ThePool
 CONSTRAINT Progress
 POSTCONDITION Report
 CHECK_DEADLOCK FALSE
